@@ -115,6 +115,9 @@ def validate_path(m, path_ids):
     for a, b in zip(idx, idx[1:]):
         if not allowed(m, segs, a, b):
             return f"step {seg_id(a)}{list(segs[a])} -> {seg_id(b)}{list(segs[b])} is not permitted by any mark"
+        if jumped and segs[a][1] in m["fine"] and b == a + 1 and not only_by_jump_back(m, segs, a, b):
+            # after a da capo / dal segno the piece ends at the fine: walking on past it is not a permitted path
+            return f"after the jump back the walk passes the fine at {segs[a][1]} (step {seg_id(a)} -> {seg_id(b)})"
         if only_by_jump_back(m, segs, a, b):
             if segs[a][1] in jumped:
                 return f"the da capo / dal segno at {segs[a][1]} is followed a second time (step {seg_id(a)} -> {seg_id(b)})"
